@@ -9,11 +9,13 @@ def to_bp(mv, planes=3):
     mv = np.asarray(mv, dtype=np.uint8)
     n = mv.shape[-1]
     nb = (n + 7) // 8
+    pad = np.zeros(mv.shape[:-1] + (nb * 8,), dtype=np.uint8)
+    pad[..., :n] = mv
+    w = (1 << np.arange(8)).astype(np.uint16)
     out = np.zeros(mv.shape[:-1] + (planes, nb), dtype=np.uint8)
-    for lane in range(n):
-        b, j = divmod(lane, 8)
-        for p in range(planes):
-            out[..., p, b] |= (((mv[..., lane] >> p) & 1) << j).astype(np.uint8)
+    for p in range(planes):
+        bits = ((pad >> p) & 1).reshape(mv.shape[:-1] + (nb, 8)).astype(np.uint16)
+        out[..., p, :] = (bits * w).sum(axis=-1).astype(np.uint8)
     return out
 
 
@@ -23,12 +25,12 @@ def from_bp(bp, n=None):
     planes, nb = bp.shape[-2], bp.shape[-1]
     if n is None:
         n = nb * 8
-    out = np.zeros(bp.shape[:-2] + (n,), dtype=np.uint8)
-    for lane in range(n):
-        b, j = divmod(lane, 8)
-        for p in range(planes):
-            out[..., lane] |= (((bp[..., p, b] >> j) & 1) << p).astype(np.uint8)
-    return out
+    sh = np.arange(8, dtype=np.uint8)
+    out = np.zeros(bp.shape[:-2] + (nb * 8,), dtype=np.uint8)
+    for p in range(planes):
+        bits = ((bp[..., p, :, None] >> sh) & 1).reshape(bp.shape[:-2] + (nb * 8,))
+        out |= (bits << p).astype(np.uint8)
+    return out[..., :n]
 
 
 def s2v(s):
